@@ -31,6 +31,22 @@ def _scratch():
     return tempfile.mkdtemp(prefix="verif_c17_", dir=base)
 
 
+def _layout(a, layout):
+    """Return an array with the same contents but a different memory layout (the registered object)."""
+    if layout in (None, "contiguous"):
+        return a
+    if layout == "fortran":
+        return np.asfortranarray(a)
+    if layout == "strided":  # every-other-element view of a larger array along the last axis
+        big = np.zeros(a.shape[:-1] + (2 * a.shape[-1],), dtype=a.dtype)
+        v = big[..., ::2]
+        v[...] = a
+        return v
+    if layout == "reversed":
+        return np.ascontiguousarray(a[..., ::-1])[..., ::-1]
+    raise KeyError(layout)
+
+
 def _fill(shape, dtype, content, k):
     n = int(np.prod(shape))
     i = np.arange(n, dtype=np.float64)
@@ -94,6 +110,11 @@ def build_registry(spec, variant=0):
     arrays = {}
     order = []
     k = 100 * variant
+    layout = spec.get("layout")
+    _fill0 = _fill
+
+    def _fill_l(shape, dtype_, content_, kk):  # Eulerian fields may be registered as non-contiguous views
+        return _layout(_fill0(shape, dtype_, content_, kk), layout)
     eul = spec["eul"]
     ns, nv = {"none": (0, 0), "s1": (1, 0), "v1": (0, 1), "s1v1": (1, 1), "s2v2": (2, 2)}[eul]
     dx = 0.25
@@ -104,9 +125,9 @@ def build_registry(spec, variant=0):
         pos = np.flipud(np.array(np.meshgrid(*axes, indexing="ij"))).astype(dtype)
         fields = {}
         for j in range(ns):
-            fields[_names(naming, "es", 0, j)] = _fill(grid_size, dtype, content, k + j)
+            fields[_names(naming, "es", 0, j)] = _fill_l(grid_size, dtype, content, k + j)
         for j in range(nv):
-            fields[_names(naming, "ev", 0, j)] = _fill((dim, *grid_size), dtype, content, k + 10 + j)
+            fields[_names(naming, "ev", 0, j)] = _fill_l((dim, *grid_size), dtype, content, k + 10 + j)
         io = spu.EulerianFieldIO(position_field=pos, eulerian_fields_dict=fields)
         for n_, a in fields.items():
             arrays[("E", n_)] = a
@@ -118,9 +139,9 @@ def build_registry(spec, variant=0):
         gs = tuple(int(v) for v in (np.array(grid_size) + np.array(spec.get("grid_delta", [0] * dim))))
         fields = {}
         for j in range(ns):
-            fields[_names(naming, "es", 0, j)] = _fill(gs, dtype, content, k + j)
+            fields[_names(naming, "es", 0, j)] = _fill_l(gs, dtype, content, k + j)
         for j in range(nv):
-            fields[_names(naming, "ev", 0, j)] = _fill((dim, *gs), dtype, content, k + 10 + j)
+            fields[_names(naming, "ev", 0, j)] = _fill_l((dim, *gs), dtype, content, k + 10 + j)
         io.add_as_eulerian_fields_for_io(**fields)
         for n_, a in fields.items():
             arrays[("E", n_)] = a
@@ -128,9 +149,9 @@ def build_registry(spec, variant=0):
         grid = _fill((dim, N), dtype, content, k + 20 + g)
         fields = {}
         for j in range(ls):
-            fields[_names(naming, "ls", g, j)] = _fill((N,), dtype, content, k + 30 + 3 * g + j)
+            fields[_names(naming, "ls", g, j)] = _fill_l((N,), dtype, content, k + 30 + 3 * g + j)
         for j in range(lv):
-            fields[_names(naming, "lv", g, j)] = _fill((dim, N), dtype, content, k + 40 + 3 * g + j)
+            fields[_names(naming, "lv", g, j)] = _fill_l((dim, N), dtype, content, k + 40 + 3 * g + j)
         gname = _grid_name(naming, g)
         io.add_as_lagrangian_fields_for_io(lagrangian_grid=grid, lagrangian_grid_name=gname, lagrangian_grid_connect=(g % 2 == 1), **fields)
         real_name = gname if gname is not None else f"Lagrangian_grid_{g}"
@@ -154,6 +175,11 @@ def case_roundtrip(spec):
     dup_spec = spec["naming"] == "dup-across-grids" and sum(1 for g in spec["grids"] if g[0] + g[1] > 0) >= 2
     try:
         io_a, arr_a, meta = build_registry(spec, 0)
+        # the registered arrays are updated IN PLACE after registration (as a simulation does): the file must
+        # hold the values at save time, not a snapshot taken at registration
+        for k, v in arr_a.items():
+            if v.dtype.kind == "f" and v.size:
+                v.flat[v.size // 2] = v.flat[v.size // 2] * 0.5 + 0.25 if np.isfinite(v.flat[v.size // 2]) else v.flat[v.size // 2]
         before = {k: _bytes(v) for k, v in arr_a.items()}
         time = spec.get("time", 1.2345678901234567)
         fn = os.path.join(d, "chk_0001.h5")
@@ -330,6 +356,7 @@ def run(r) -> None:
         "g0": grid_opts, "g1": grid_opts, "N0": MARKERS, "N1": [3, 2, 4],
         "content": CONTENT, "naming": NAMING, "time": [1.2345678901234567, 0.0, 1e-310],
         "array_dtype": [None, "float64", "float32"],
+        "layout": [None, "strided", "fortran", "reversed"],
     }
     specs = []
     seen = set()
@@ -342,6 +369,8 @@ def run(r) -> None:
         spec = dict(dim=pt["dim"], dtype=pt["dtype"], eul=pt["eul"], grids=grids, content=pt["content"], naming=pt["naming"], io_class="IO", time=pt["time"])
         if pt["array_dtype"] is not None and pt["array_dtype"] != pt["dtype"]:
             spec["array_dtype"] = pt["array_dtype"]
+        if pt["layout"] is not None:
+            spec["layout"] = pt["layout"]
         key = repr(sorted(spec.items(), key=lambda kv: kv[0]))
         if key in seen:
             continue
@@ -353,6 +382,8 @@ def run(r) -> None:
     for dim, dt, adt, content in itertools.product((2, 3), ("float64", "float32"), ("float64", "float32"), CONTENT):
         if adt != dt:
             specs.append(dict(spec=dict(dim=dim, dtype=dt, array_dtype=adt, eul="s1v1", grids=[[1, 1, 4], [1, 1, 3]], content=content, naming="custom", io_class="IO")))
+    for dim, dt, lay, cls in itertools.product((2, 3), ("float64", "float32"), ("strided", "fortran", "reversed"), ("IO", "EulerianFieldIO")):
+        specs.append(dict(spec=dict(dim=dim, dtype=dt, eul="s1v1", grids=[[1, 1, 4]] if cls == "IO" else [], content="ordinary", naming="custom", io_class=cls, layout=lay)))
     for dim, dt, eul, content in itertools.product((2, 3), ("float64", "float32"), ("s1", "v1", "s1v1", "s2v2"), CONTENT if not quick else CONTENT[:3]):
         specs.append(dict(spec=dict(dim=dim, dtype=dt, eul=eul, grids=[], content=content, naming="custom", io_class="EulerianFieldIO")))
     r.run_cases("roundtrip", "roundtrip", specs, chunksize=8)
